@@ -1,6 +1,7 @@
 import Datacake.Model.Cluster
 import Datacake.Model.Membership
 import Datacake.Model.Replication
+import Datacake.Model.Envelope
 import Datacake.Spec.Lww
 import Driver.Actor
 /- Domain `cluster`: N-node cluster model (C01, C06, C19). -/
@@ -371,6 +372,15 @@ def step (st : State) (toks : List String) : State × String :=
     | some i, some targets, some first, some count, some ts =>
       wbulk st i targets (.mdel ((List.range count).map (fun k => (first + k, ts)))) ts
     | _, _, _, _, _ => (st, "bad-op")
+  | ["envelope-bytes", ts, lu, h] =>
+    -- the frame of a GetState reply, byte for byte (`Envelope.envFrame`: the rkyv layout of the envelope), and whether the
+    -- checked reading of it (`Envelope.getState`: frame check + `readEnv`) hands back exactly what was put in
+    match ts.toNat?, lu.toNat?, unhex h with
+    | some ts, some lu, some set =>
+      let f := Envelope.envFrame ts lu set
+      let ok := Envelope.getState ts lu set [f.length / 3, f.length / 3] == some (ts, lu, set)
+      (st, s!"frame {hexOfBytes f} valid={ok}")
+    | _, _, _ => (st, "bad-op")
   | ["badenvelope", _, kind, n] =>
     -- the same for the envelope around the state: the honest reply is accepted, one whose declared length or position of the
     -- nested bytes is not inside the message is an error (never followed)
